@@ -183,11 +183,11 @@ non-trivial = a fault is actually hit after at least one item was consumed, or a
             let items: Vec<u64> = (0..len).map(|_| r.below(9) as u64).collect();
             let k_fault = if r.chance(1, 2) { Some(r.below(len + 1)) } else { None };
             let chain: Vec<AD> = match r.below(4) { 0 => vec![], 1 => vec![AD::FilterEven], 2 => vec![AD::MapSucc], _ => vec![AD::FilterLt(5), AD::MapDouble] };
-            let source_kind = r.below(3); // 0 iterator, 1 N-Triples parser, 2 store (no source fault possible)
-            let sink_kind = r.below(4); // 0 insert_all capped, 1 remove_all, 2 collect into capped store, 3 serializer with failing writer
+            let source_kind = r.below(4); // 0 iterator, 1 N-Triples parser, 2 store (no source fault possible), 3 Turtle parser with ONE statement holding all items (object list: one parser step yields several triples)
+            let sink_kind = r.below(6); // 0 insert_all capped, 1 remove_all, 2 collect into capped store, 3 serializer with failing writer, 4 closure failing on its j-th item, 5 remove_all on a DATASET (quads in the default graph)
             let init: Vec<u64> = (0..r.below(4)).map(|_| r.below(9) as u64).collect();
             let k_fault = if source_kind == 2 { None } else { k_fault };
-            let src_model: Vec<Result<u64, u64>> = { let mut v: Vec<Result<u64, u64>> = items.iter().map(|x| Ok(*x)).collect(); if let Some(k) = k_fault { v.insert(k, Err(7)); if source_kind == 1 { v.truncate(k + 1) } } v };
+            let src_model: Vec<Result<u64, u64>> = { let mut v: Vec<Result<u64, u64>> = items.iter().map(|x| Ok(*x)).collect(); if let Some(k) = k_fault { v.insert(k, Err(7)); if source_kind == 1 || source_kind == 3 { v.truncate(k + 1) } } v };
             // store sources enumerate a set: dedupe + we canonicalise by sorting the model source too
             let store_items: Vec<u64> = { let mut v = items.clone(); v.sort(); v.dedup(); v };
             let src_model = if source_kind == 2 { store_items.iter().map(|x| Ok(*x)).collect() } else { src_model };
@@ -195,6 +195,10 @@ non-trivial = a fault is actually hit after at least one item was consumed, or a
                 0 => { let v: Vec<Result<[ST; 3], MyErr>> = src_model.iter().map(|x| x.map(tr).map_err(MyErr)).collect(); let $s = v.into_iter(); $body }
                 1 => { let mut text = String::new(); for x in &src_model { match x { Ok(n) => text.push_str(&format!("<http://e/s> <http://e/p> \"{n}\"^^<{XSD}integer> .\n")), Err(_) => text.push_str("<http://e/s> <http://e/p> oops .\n") } }
                        let $s = sophia_turtle::parser::nt::parse_str(&text).map_triples(|t| [t.s().into_term::<ST>(), t.p().into_term(), t.o().into_term()]).map_items(|x| x).into_iter().map(|r| r.map_err(|_| MyErr(7))); $body }
+                3 => { let oks: Vec<u64> = src_model.iter().filter_map(|x| x.ok()).collect(); let mut text = String::from("@prefix e: <http://e/> .\n");
+                       if !oks.is_empty() { text.push_str(&format!("e:s e:p {} .\n", oks.iter().map(|n| format!("\"{n}\"^^<{XSD}integer>")).collect::<Vec<_>>().join(" , "))); }
+                       if src_model.iter().any(|x| x.is_err()) { text.push_str("e:s e:p oops oops .\n"); }
+                       let $s = sophia_turtle::parser::turtle::parse_str(&text).map_triples(|t| [t.s().into_term::<ST>(), t.p().into_term(), t.o().into_term()]).map_items(|x| x).into_iter().map(|r| r.map_err(|_| MyErr(7))); $body }
                 _ => { let mut g = FastGraph::new(); for n in &store_items { g.insert_triple(tr(*n)).unwrap(); }
                        let mut v: Vec<[ST; 3]> = g.triples().map(|t| { let t = t.unwrap(); [t.s().into_term(), t.p().into_term(), t.o().into_term()] }).collect(); v.sort_by_key(num);
                        let $s = v.into_iter().map(Ok::<_, MyErr>); $body }
@@ -204,7 +208,7 @@ non-trivial = a fault is actually hit after at least one item was consumed, or a
             let cap: u8 = 2 + 3; // s, p + 3 distinct objects
             type Capped = GenericFastGraph<SimpleTermIndex<SmallIdx<5>>>;
             type CappedLight = GenericLightGraph<SimpleTermIndex<SmallIdx<5>>>;
-            let text = format!("triple-level source={} sink={} items={items:?} source_fault_at={k_fault:?} chain={chain:?} init={init:?}", ["iterator", "nt-parser", "store"][source_kind], ["insert_all(capped)", "remove_all", "collect(capped)", "nt-serializer(failing writer)"][sink_kind]);
+            let text = format!("triple-level source={} sink={} items={items:?} source_fault_at={k_fault:?} chain={chain:?} init={init:?}", ["iterator", "nt-parser", "store", "turtle-parser(object list)"][source_kind], ["insert_all(capped)", "remove_all", "collect(capped)", "nt-serializer(failing writer)", "closure failing at item j", "dataset remove_all"][sink_kind]);
             let (content, count, out): (Vec<u64>, u64, Outc) = match sink_kind {
                 0 | 2 => {
                     let mut g = Capped::new();
@@ -225,6 +229,70 @@ non-trivial = a fault is actually hit after at least one item was consumed, or a
                     let res = with_source!(s => g.remove_all(chained!(s)));
                     let content: Vec<u64> = g.triples().map(|t| tr_through(t.unwrap())).collect();
                     match res { Ok(n) => (content, n as u64, Outc::Done), Err(StreamError::SourceError(e)) => (content.clone(), (before - content.len()) as u64, Outc::Source(e.0)), Err(StreamError::SinkError(_)) => (content, 0, Outc::Sink(998)) }
+                }
+                4 => {
+                    // a consumer closure that fails on its j-th item: it must see exactly the items up to and including that one
+                    let j = r.below(5);
+                    let produced: Vec<u64> = src_model.iter().take_while(|x| x.is_ok()).filter_map(|x| through(&chain, x.unwrap())).collect();
+                    let step_wise = r.chance(1, 2);
+                    let mut seen_items: Vec<u64> = vec![];
+                    // parser sources: the consumer is driven by the parser adapter ITSELF (rio/src/parser.rs), without any
+                    // intermediate iterator, so that a consumer failing in the middle of a parser step is exercised
+                    let direct_parser = (source_kind == 1 || source_kind == 3) && r.chance(2, 3);
+                    let produced: Vec<u64> = if direct_parser { src_model.iter().take_while(|x| x.is_ok()).map(|x| x.unwrap()).collect() } else { produced };
+                    let res: Result<(), StreamError<MyErr, MyErr>> = if direct_parser {
+                        let oks: Vec<u64> = src_model.iter().filter_map(|x| x.ok()).collect(); let bad = src_model.iter().any(|x| x.is_err());
+                        let mut f = |n: u64| -> Result<(), MyErr> { seen_items.push(n); if seen_items.len() - 1 == j { Err(MyErr(5)) } else { Ok(()) } };
+                        macro_rules! drive { ($p:expr) => {{ let mut src = $p; let r0 = if step_wise { loop { match src.try_for_some_triple(|t| f(tr_through(t))) { Ok(true) => {} Ok(false) => break Ok(()), Err(e) => break Err(e) } } } else { src.try_for_each_triple(|t| f(tr_through(t))) };
+                            r0.map_err(|e| match e { StreamError::SourceError(_) => StreamError::SourceError(MyErr(7)), StreamError::SinkError(e) => StreamError::SinkError(e) }) }}; }
+                        if source_kind == 1 {
+                            let mut text = String::new(); for n in &oks { text.push_str(&format!("<http://e/s> <http://e/p> \"{n}\"^^<{XSD}integer> .\n")); } if bad { text.push_str("<http://e/s> <http://e/p> oops .\n"); }
+                            drive!(sophia_turtle::parser::nt::parse_str(&text))
+                        } else {
+                            let mut text = String::from("@prefix e: <http://e/> .\n");
+                            if !oks.is_empty() { text.push_str(&format!("e:s e:p {} .\n", oks.iter().map(|n| format!("\"{n}\"^^<{XSD}integer>")).collect::<Vec<_>>().join(" , "))); }
+                            if bad { text.push_str("e:s e:p oops oops .\n"); }
+                            drive!(sophia_turtle::parser::turtle::parse_str(&text))
+                        }
+                    } else { with_source!(s => {
+                        let mut src = chained!(s);
+                        let mut f = |t: [ST; 3]| -> Result<(), MyErr> { seen_items.push(num(&t)); if seen_items.len() - 1 == j { Err(MyErr(5)) } else { Ok(()) } };
+                        if step_wise { loop { match src.try_for_some_triple(&mut f) { Ok(true) => {} Ok(false) => break Ok(()), Err(e) => break Err(e) } } } else { src.try_for_each_triple(&mut f) }
+                    }) };
+                    let out = match res { Ok(()) => Outc::Done, Err(StreamError::SourceError(e)) => Outc::Source(e.0), Err(StreamError::SinkError(e)) => Outc::Sink(e.0) };
+                    let exp_seen: Vec<u64> = produced.iter().take(j + 1).cloned().collect();
+                    let exp_out = if produced.len() > j { Outc::Sink(5) } else if let Some(Err(e)) = src_model.iter().find(|x| x.is_err()) { Outc::Source(*e) } else { Outc::Done };
+                    if seen_items != exp_seen || out != exp_out { sum.oracle_failures.push((idx.to_string(), format!("{text}{} closure fails at its item #{j} ({}): the closure saw {seen_items:?}, outcome {out:?}; expected {exp_seen:?} {exp_out:?}", if direct_parser { " [consumer driven by the parser adapter directly, no adapter chain]" } else { "" }, if step_wise { "driven step-wise" } else { "whole stream" }))); }
+                    sum.bump("sink:closure"); sum.bump(&format!("source:{}", ["iterator", "nt-parser", "store", "turtle-object-list"][source_kind])); sum.evaluations += 1;
+                    if seen.insert(format!("{text} j={j}")) && exp_out != Outc::Done && !exp_seen.is_empty() { sum.distinct_nontrivial += 1; }
+                    continue;
+                }
+                5 => {
+                    // MutableDataset::remove_all (a default method of the trait) over quads in the default graph, on three dataset types
+                    use sophia_api::source::QuadSource as _;
+                    let which = r.below(3);
+                    fn go<D: MutableDataset + Dataset + Default>(init: &[u64], src: impl TripleSource<Error = MyErr>) -> (Vec<u64>, Result<usize, StreamError<MyErr, MyErr>>) where D::MutationError: std::fmt::Debug {
+                        let mut d = D::default(); for n in init { d.insert_quad((tr(*n), None::<ST>)).ok().unwrap(); }
+                        let res = d.remove_all(src.to_quads()).map_err(|e| match e { StreamError::SourceError(e) => StreamError::SourceError(e), StreamError::SinkError(_) => StreamError::SinkError(MyErr(996)) });
+                        let content: Vec<u64> = d.quads().map(|q| { let q = q.ok().unwrap(); q.o().lexical_form().unwrap().parse().unwrap() }).collect();
+                        (content, res)
+                    }
+                    let (content, res) = match which {
+                        0 => with_source!(s => go::<sophia_inmem::dataset::FastDataset>(&init, chained!(s))),
+                        1 => with_source!(s => go::<Vec<sophia_api::quad::Spog<ST>>>(&init, chained!(s))),
+                        _ => with_source!(s => go::<std::collections::BTreeSet<sophia_api::quad::Spog<ST>>>(&init, chained!(s))),
+                    };
+                    let mut set: Vec<u64> = vec![]; for n in &init { if !set.contains(n) { set.push(*n) } }
+                    let mut cnt = 0usize; let mut exp_out = Outc::Done;
+                    for x in &src_model { match x { Err(e) => { exp_out = Outc::Source(*e); break } Ok(v) => if let Some(y) = through(&chain, *v) { if set.contains(&y) { set.retain(|z| *z != y); cnt += 1 } } } }
+                    let out = match &res { Ok(_) => Outc::Done, Err(StreamError::SourceError(e)) => Outc::Source(e.0), Err(StreamError::SinkError(_)) => Outc::Sink(996) };
+                    // Vec is not a SetDataset: it keeps duplicates and its removal count is documented as not significant
+                    let mut c_sorted = content.clone(); c_sorted.sort(); if which == 1 { c_sorted.dedup(); } set.sort();
+                    let count_ok = match &res { Ok(n) => which == 1 || *n == cnt, Err(_) => true };
+                    if c_sorted != set || out != exp_out || !count_ok { sum.oracle_failures.push((idx.to_string(), format!("{text} (dataset type #{which}): implementation content={c_sorted:?} result={res:?}; expected content={set:?} count={cnt} outcome={exp_out:?}"))); }
+                    sum.bump("sink:dataset-remove_all"); sum.bump(&format!("source:{}", ["iterator", "nt-parser", "store", "turtle-object-list"][source_kind])); sum.evaluations += 1;
+                    if seen.insert(format!("{text} d={which}")) && (exp_out != Outc::Done || cnt > 0) { sum.distinct_nontrivial += 1; }
+                    continue;
                 }
                 _ => {
                     // each statement is exactly one line; a writer that accepts `budget` whole lines then fails
@@ -266,7 +334,7 @@ non-trivial = a fault is actually hit after at least one item was consumed, or a
             if a.only.is_some() { println!("CASE {idx}: {text}\nIMPL content={c_sorted:?} count={count} out={out:?}\nORACLE content={s_sorted:?} count={cnt} out={exp_out:?}"); }
             if c_sorted != s_sorted || count != cnt || out != exp_out { sum.oracle_failures.push((idx.to_string(), format!("{text}: implementation content={c_sorted:?} count={count} outcome={out:?}; expected content={s_sorted:?} count={cnt} outcome={exp_out:?}"))); }
             if seen.insert(text.clone()) && (exp_out != Outc::Done || cnt > 0) { sum.distinct_nontrivial += 1; }
-            sum.bump(&format!("source:{}", ["iterator", "nt-parser", "store"][source_kind])); sum.bump(&format!("sink:{}", ["insert_all", "remove_all", "collect", "serializer"][sink_kind]));
+            sum.bump(&format!("source:{}", ["iterator", "nt-parser", "store", "turtle-object-list"][source_kind])); sum.bump(&format!("sink:{}", ["insert_all", "remove_all", "collect", "serializer", "closure", "dataset-remove_all"][sink_kind]));
             if sum.samples.len() < 5 && exp_out != Outc::Done { sum.samples.push(format!("case {idx}: {text} => content={c_sorted:?} count={count} {out:?}")); }
             let c_src = format!("(of_results {})", coq_list(src_model.iter().map(|x| match x { Ok(v) => format!("inl {v}"), Err(e) => format!("inr {e}") })));
             let c_chain = coq_list(chain.iter().map(c_ad));
